@@ -15,6 +15,7 @@ import TzVerif.Properties.C11
 import TzVerif.Properties.C12
 import TzVerif.Properties.C13
 import TzVerif.Properties.C14
+import TzVerif.Properties.C15
 import TzVerif.Properties.C16
 import TzVerif.Properties.C17
 import TzVerif.Properties.C18
